@@ -67,11 +67,58 @@ pub fn run(toks: &[&str], out: &mut Vec<String>) -> R<()> {
 
     let mp = MotionProfile::new(start, end, max_vel, max_acc);
     let dbg = format!("{:?}", mp);
-    out.push(or_q(time_field(&dbg, "t1")));
-    out.push(or_q(time_field(&dbg, "t2")));
-    out.push(or_q(time_field(&dbg, "t3")));
-    out.push(or_q(quantity_field(&dbg, "max_acc")));
-    out.push(or_q(command_field(&dbg, "end_command")));
+    let from_debug = [
+        time_field(&dbg, "t1"),
+        time_field(&dbg, "t2"),
+        time_field(&dbg, "t3"),
+        quantity_field(&dbg, "max_acc"),
+        command_field(&dbg, "end_command"),
+    ];
+    if from_debug.iter().all(|x| x.is_some()) {
+        for x in from_debug {
+            out.push(or_q(x));
+        }
+    } else {
+        // The `Debug` output does not (any longer) show the private fields in the derived form: recover them from BEHAVIOUR.
+        // The pieces follow each other in time, so each boundary is the first instant at which the piece has at least a given rank.
+        let rank = |t: i64| match mp.get_piece(Time(t)) {
+            MotionProfilePiece::BeforeStart => 0u8,
+            MotionProfilePiece::InitialAcceleration => 1,
+            MotionProfilePiece::ConstantVelocity => 2,
+            MotionProfilePiece::EndAcceleration => 3,
+            MotionProfilePiece::Complete => 4,
+        };
+        let first_with = |r: u8| -> i64 {
+            let (mut lo, mut hi) = (0i64, i64::MAX); // answer in [lo, hi]; rank(hi) >= r is assumed (Complete at the end of time)
+            if rank(hi) < r {
+                return i64::MAX;
+            }
+            while lo < hi {
+                let mid = lo + (hi - lo) / 2;
+                if rank(mid) >= r {
+                    hi = mid;
+                } else {
+                    lo = mid + 1;
+                }
+            }
+            lo
+        };
+        let (t1, t2, t3) = (first_with(2), first_with(3), first_with(4));
+        out.push(format!("T:{}", t1));
+        out.push(format!("T:{}", t2));
+        out.push(format!("T:{}", t3));
+        // max_acc: the commanded acceleration while speeding up, or minus the one while slowing down; unobservable if both are empty
+        let acc = if t1 > 0 {
+            mp.get_acceleration(Time(0))
+        } else if t3 > t2 {
+            mp.get_acceleration(Time(t2)).map(|q| -q)
+        } else {
+            None
+        };
+        out.push(acc.map(|q| q.enc()).unwrap_or_else(|| "?".to_string()));
+        let endc = <MotionProfile as History<Command, E>>::get(&mp, Time(t3)).map(|d| d.value.enc());
+        out.push(endc.unwrap_or_else(|| "?".to_string()));
+    }
 
     for t in times {
         let t = Time(t);
